@@ -140,27 +140,33 @@ pub fn deserialize_schedule(str: &str) -> Option<Schedule> {
     let str: String = str.chars().filter(|c| !c.is_whitespace()).collect();
     let bytes = hex::decode(str).ok()?;
 
-    let version = bytes[0];
+    let (&version, mut bytes) = bytes.split_first()?;
     if version != SCHEDULE_MAGIC_V2 {
         return None;
     }
-    let mut bytes = &bytes[1..];
 
-    let task_id_bits = bytes.read_u64_varint().ok()? as usize;
-    let schedule_len = bytes.read_u64_varint().ok()? as usize;
+    let task_id_bits = usize::try_from(bytes.read_u64_varint().ok()?).ok()?;
+    let schedule_len = usize::try_from(bytes.read_u64_varint().ok()?).ok()?;
     let seed = bytes.read_u64_varint().ok()?;
+    // The writer always uses between 1 and `usize::BITS` bits per task ID
+    if task_id_bits == 0 || task_id_bits > usize::BITS as usize {
+        return None;
+    }
 
-    let encoded = BitSlice::<_, Lsb0>::from_slice(bytes);
+    let encoded = BitSlice::<_, Lsb0>::try_from_slice(bytes).ok()?;
     let mut offset = 0usize;
-    let mut steps = Vec::with_capacity(schedule_len);
+    // Don't trust `schedule_len` for pre-allocation: a truncated string is detected below
+    let mut steps = Vec::new();
     while steps.len() < schedule_len {
-        if *encoded.get(offset).unwrap() {
+        if *encoded.get(offset)? {
             steps.push(ScheduleStep::Random);
-            offset += 1;
+            offset = offset.checked_add(1)?;
         } else {
-            let tid = encoded[offset + 1..offset + 1 + task_id_bits].load::<usize>();
+            let start = offset.checked_add(1)?;
+            let end = start.checked_add(task_id_bits)?;
+            let tid = encoded.get(start..end)?.load::<usize>();
             steps.push(ScheduleStep::Task(TaskId::from(tid)));
-            offset += 1 + task_id_bits;
+            offset = end;
         }
     }
 
